@@ -368,6 +368,7 @@ func (s *SymDense) SymRankK(a Symmetric, alpha float64, x Matrix) {
 	var g blas64.General
 	if rm, ok := xMat.(*Dense); ok {
 		g = rm.mat
+		s.checkOverlap(g)
 	} else {
 		g = DenseCopyOf(x).mat
 		aTrans = false
